@@ -21,7 +21,7 @@ def sync_part(ctx):
     # (iii) network of honest real nodes (spec/Net.tla): stored finalized height and finalized ids per node under forks,
     # tie breaks and fast syncs
     from props import net
-    res.update(net.run_net(ctx, lambda k: k.startswith(C04_NET), parts=("honest_exh", "honest_sim", "byz_sim")))
+    res.update(net.run_net(ctx, lambda k: k.startswith(C04_NET), parts=("honest_exh", "honest_sim", "byz_sim", "chg_sim")))
     return res
 
 def run(ctx):
